@@ -75,134 +75,6 @@ CONFIG['C18'] = {'assumptions': ['material identity is observed by DER equality 
                   'stream H (handshake) uses a hand model of crypto/tls verification (version negotiation, chain + name check, callback, client '
                   'certificate selection): support, not proof; assumes the generated CAs are not in the system pool']}
 
-CONFIG['C06'] = {'assumptions': ['media types in consumes lists, defaults and registrations are ASCII (strings.EqualFold/ToLower differ from the model on non-ASCII '
-                 'letters)',
-                 'the property quantifies over consumes lists spelled in lower case: for a configuration with a mixed-case consumes entry only the '
-                 'correspondence is checked (tag ~mixedcase), the Spec is not judged',
-                 'requests are handed to the handlers as *http.Request values (no wire parsing); every lookup yields a fresh MatchedRoute '
-                 '(route.Consumer nil)'],
- 'go_entry': 'middleware.Context.BindAndValidate, middleware.Context.BindValidRequest, middleware.Serve handler (runtime.HasBody, '
-             'runtime.ContentType, validateContentType behind them)',
- 'model_fn': 'untypedRaw / typedRaw / observe (gateUntyped, gateTyped), hasBody, routeConsumer',
- 'partial': [],
- 'quick_n': 12000,
- 'rule': 'API configurations (operation consumes lists of 0-3 entries: concrete types, type/*, */*, entries with parameters, odd tokens, a few '
-         'mixed-case ones; API default absent/present; 0-6 RegisterConsumer calls with case variants and duplicates, instrumented consumers) x '
-         'requests (7 methods in either case; Content-Type absent / empty / two lines / valid with case flips, parameters, quoted values, '
-         'surrounding whitespace / literal wildcards / malformed / noise bytes; body signalled by Content-Length, by a stream without length, '
-         'absent, and contradictory combinations). Every case runs Context.BindAndValidate, Context.BindValidRequest (with the binder a generated '
-         'server uses) and the complete middleware.Serve handler on the same request; outputs are the error codes in order, route.Consumer, the '
-         'consumer whose Consume ran, status, whether the operation handler ran, plus runtime.HasBody and mime.ParseMediaType of the effective '
-         'header (and of its own result) as observed. Thorough tier adds the exhaustive product over a 12-entry media-type universe (consumes lists '
-         'of <= 2 entries x 3 defaults x 3 registries x 16 headers x 3 body signals x 2 methods = 68k cases). A case is trivial only when there is '
-         'neither header nor body signal.',
- 'search_s': 60,
- 'thorough_n': 100000,
- 'thorough_seeds': 2,
- 'trusted_base': ['reading of the property text into the Lean `Spec` (human step, RtVerif/Model/<id>.lean)',
-                  'correspondence check (differential: Go harness /verif/harness -> protocol lines -> compiled Lean driver rtdriver evaluating Model '
-                  'and Spec); coverage bounded by the generators',
-                  "factgen (go/ast extraction of constants/tables into RtVerif/Gen/Facts.lean) and the driver's line parser",
-                  'mime.ParseMediaType is a parameter of the model (`pmt`); the theorems assume PmtOK (its result parses to itself, is non-empty, '
-                  "holds no ';'), re-checked against the real function on every case (a failure is reported as a correspondence break with tag "
-                  'PMT-HYPOTHESIS-FAILED)',
-                  "the peek into the body stream (bufio) behind runtime.HasBody is the boolean `streamHasData` (C17's subject)",
-                  'net/http Header.Get, go-openapi/errors (codes 400/415/500, ServeError serving the first error of a composite), '
-                  "analysis.ConsumesFor (returns the operation's list, order irrelevant), swag.ContainsStringsCI / strings.EqualFold (ASCII folding)",
-                  'downstream of the gate (parameter binder calling Consume only when HasBody, handler invocation) is modelled by '
-                  '`consumerRan`/`handlerRan` and checked differentially only']}
-
-CONFIG['C13'] = {'assumptions': ["Content-Type values, defaults, registry keys and header names are ASCII (Go's Unicode lower-casing/TrimSpace differ beyond ASCII, "
-                 'e.g. U+212A); header names are token characters',
-                 "the wire (RoundTripper) fails the round trip exactly when the request's context is already done, as net/http's Transport does",
-                 'the response to a request is a function of that request (net : Op -> Resp) in the concurrency model'],
- 'go_entry': 'client.(*Runtime).Submit (client/runtime.go), client.response (client/response.go), mime.ParseMediaType',
- 'model_fn': 'submit / selectConsumer / parseMediaType / adapterView / chooseClient / chooseCtx',
- 'partial': ['data-race freedom (Go memory model) is NOT proved: FullStatement keeps it as the parameter DataRaceFree; full_statement_partial proves '
-             'the sequential part and the interleaving part on the step model. Support: stream R in the -race build (tier race), concurrent first '
-             'calls, per-call tokens',
-             'atomicity and happens-before of sync.Once are assumed by the step model, not proved'],
- 'quick_n': 12000,
- 'race_n': 60,
- 'race_thorough_factor': 20,
- 'rule': 'stream S: Submit on a Runtime whose RoundTripper returns a crafted response: Content-Type values (pool of registered/unregistered types x '
-         "random letter case x leading/trailing blanks x well-formed, malformed and duplicate parameters; malformed values such as ';;', 'text/', 'a "
-         "b/c', byte noise; absent, empty, two lines, any spelling of the header name) x default media type (valid, with parameters, upper case, "
-         "empty, malformed) x registry (random subset of the pool, biased to hold the response's type, with/without '*/*', odd keys: upper case, "
-         'with parameters, lone token, empty) x status code/status text x 0-4 other headers with case-variant names x queried names x random body '
-         'bytes x operation-level vs transport-level client (lazy or NewWithClient) and context (nil/live/cancelled/deadline) x timeout x Debug x '
-         'reader returning an error. Consumers are instrumented (identity = registry key); the reader records what it saw. Stream M: '
-         "mime.ParseMediaType on the part before ';' vs the hand model. Stream R (also run in a -race build, tier race): N goroutines released "
-         'together on one Runtime against an httptest.Server, first calls included, per-call tokens. Stream M is exhaustive over all strings of '
-         'length <= 3 (thorough: <= 5) over {a B / ; blank quote *} plus random values. Non-trivial = every S and R case (all reach the selection or '
-         'the precedence logic; M cases are tagged trivial); distinct = distinct input lines.',
- 'search_s': 45,
- 'thorough_n': 150000,
- 'thorough_seeds': 4,
- 'trusted_base': ['reading of the property text into the Lean `Spec` (human step, RtVerif/Model/<id>.lean)',
-                  'correspondence check (differential: Go harness /verif/harness -> protocol lines -> compiled Lean driver rtdriver evaluating Model '
-                  'and Spec); coverage bounded by the generators',
-                  "factgen (go/ast extraction of constants/tables into RtVerif/Gen/Facts.lean) and the driver's line parser",
-                  "mime.ParseMediaType (stdlib) is hand-modelled for ';'-free ASCII input (token grammar, lower-casing, TrimSpace) and validated "
-                  'differentially (stream M, and the exact error text in every S case)',
-                  'strconv.Quote/%q is hand-modelled for ASCII; http.Header.Get/Values as case-insensitive lookup over token names; http.Client.Do '
-                  "as 'returns the response the RoundTripper produced for this request' (no redirects: no Location header is generated)",
-                  'sync.Once is modelled as one atomic check-and-set step; the Go memory model is not represented']}
-
-CONFIG['C20'] = {'assumptions': ['requests are built in-process with an arbitrary byte string as r.URL.Path (no wire parsing); page titles and URLs compared '
-                 'literally only when html/template has nothing to escape (plain URLs) or after html.UnescapeString / JS-unescape (titles, printable '
-                 'ASCII)',
-                 "reading: a spec location is 'absolute' when it starts with / or has a scheme, its URL path is rooted and its last element is "
-                 'non-empty; for such locations the spec document path must be clean(path of the location)'],
- 'go_entry': 'middleware.Spec, Redoc, RapiDoc, SwaggerUI, SwaggerUIOAuth2Callback, Context.APIHandler/APIHandlerSwaggerUI/APIHandlerRapiDoc; '
-             'path.Clean/Join/Split/Base; url.Parse',
- 'model_fn': 'specMW / uiMW / ensureDefaults / uiOptionsForHandler / apiHandler; GoPath.clean/join/split/base; urlPath',
- 'partial': ["HTML escaping of option values is html/template's (external): covered by the import-fact theorem and stream X, not by a proof about "
-             'escaping',
-             'url.Parse model: the characterisation theorems cover plain absolute paths and scheme://host/path URLs; locations with port, query, '
-             'fragment or percent escapes (FullStatement_urlPath_general) are validated by stream U and decide-examples only (the agreement theorem '
-             'itself holds for whatever path the URL model yields)'],
- 'quick_n': 60000,
- 'rule': 'streams: G (>= 10^5 random byte paths per run over the alphabet / . a b % : * # 0x00 0xff, segment-built and uniform: '
-         'path.Clean/Split/Base/Join vs GoPath); U (url.Parse(..).Path vs the urlPath model: menu of spec locations + grammar-built and random URL '
-         'strings); M (four standalone UI middlewares: BasePath x Path x SpecURL x Title x OAuthCallbackURL menus incl. missing/extra slashes, dot '
-         'segments, HTML metacharacters x with/without next x 10 methods x request paths derived from the document path: exact, trailing slash, dot '
-         'segments, doubled slashes, prefixes, extensions, case change, unrelated, random bytes); S (Spec middleware: base path x up to 3 '
-         'WithSpecPath/WithSpecDocument options x random document bytes x the same request-path variants); H (three API-handler flavours over a '
-         'generated Swagger document: API base path x up to 3 UIOptions (base path, path, spec URL from a menu of 38 locations: absolute URLs, '
-         'absolute paths, relative, with directories, escapes, query/fragment, malformed; title) x methods x request paths around the spec path, the '
-         'UI path and the operations\' paths); X (pages rendered with hostile option values, default and two custom templates: counts of raw < > " '
-         "' compared with the page rendered with benign values). A case is non-trivial unless tagged ~ (paths shorter than 2 bytes in G, URLs "
-         'outside the modelled authority subset); distinct = distinct input lines.',
- 'search_s': 40,
- 'thorough_n': 400000,
- 'thorough_seeds': 3,
- 'trusted_base': ['reading of the property text into the Lean `Spec` (human step, RtVerif/Model/<id>.lean)',
-                  'correspondence check (differential: Go harness /verif/harness -> protocol lines -> compiled Lean driver rtdriver evaluating Model '
-                  'and Spec); coverage bounded by the generators',
-                  "factgen (go/ast extraction of constants/tables into RtVerif/Gen/Facts.lean) and the driver's line parser",
-                  "html/template's contextual escaping is external: proved is only that every UI file imports html/template (regenerated import "
-                  'table); stream X observes the real pages',
-                  'net/url.Parse is a hand model (urlPath) for authorities of the form [A-Za-z0-9.-]*(:[0-9]*)?, validated by stream U; other '
-                  'authorities are not modelled (cases tagged ~)',
-                  "GoPath (segment-stack formulation of path.Clean's lazybuf loop) is tied to the real path package by stream G only",
-                  'gob round trip between option structs (toCommonUIOptions/fromCommonToAnyOptions) modelled as a copy of the five common fields',
-                  "the API router behind the UI middleware is an opaque terminal handler (C01's subject); 'reachable' means the request arrives "
-                  'there unmodified']}
-
-CONFIG["C10"] = {
-    "quick_n": 30000, "thorough_n": 300000, "thorough_seeds": 4, "search_s": 60,
-    "model_fn": "urlPath / substSeq / finalQuery / pickScheme",
-    "go_entry": "client.Runtime.CreateHttpRequest (request.buildHTTP, Runtime.pickScheme)",
-    "rule": "streams P (patterns built from tokens: static segments, {name} segments, prefix{name}suffix, trailing slash, 1 in 25 odd patterns with nested/unbalanced braces; base paths with/without slashes and query; values incl. placeholder look-alikes, / ? # % .. space braces non-ASCII NUL; some parameters missing or extra; each case rebuilt 4x to shake Go's map order), Q (static query of base path and pattern vs caller's parameters, 0-2 keys each, repeated values), S (scheme lists), E (net/url escape tables: all 256 bytes x both modes, every run). Non-trivial: P with a well-formed pattern, every Q/S/E; distinct = distinct input lines.",
-    "trusted_base": COMMON_TB + [
-        "url.Parse of base path and pattern, path.Join, url.Values.Encode and http.NewRequest's re-parse are stdlib: the harness passes the parsed .Path/.Query() and the joined path as model inputs and reconstructs the string handed to NewRequest from RawPath/EscapedPath",
-        "net/url shouldEscape/escape/unescape are hand-copied (RtVerif/Base/GoURL.lean) and validated over all 256 bytes x both modes on every run (stream E)",
-    ],
-    "assumptions": ["parameter names are brace-free and distinct (they are Go map keys); patterns are byte strings",
-                    "Go's map iteration order is not observable: each P case is rebuilt 4 times and must give one answer"],
-    "partial": ["the model's urlPath is the string handed to http.NewRequest; what net/url makes of it afterwards is stdlib (see known finding F10a)"],
-}
 
 CONFIG["C01"] = {
     "quick_n": 30000, "thorough_n": 250000, "thorough_seeds": 4, "search_s": 60,
@@ -1018,6 +890,60 @@ CONFIG['C17'] = {'assumptions': ['ContentLength and the Content-Length header ag
                   'the scripted io.ReadCloser of the harness (props/c17.go c17Src) is what Stream.Src models: sticky terminal, Read after Close '
                   'fails',
                   'Go interface semantics: a typed-nil *peekingReader stored in r.Body is modelled as an empty stream that ignores Close']}
+
+CONFIG['C06'] = {'assumptions': ['media types in consumes lists, defaults and registrations are ASCII (strings.EqualFold/ToLower differ from the model on non-ASCII '
+                 'letters)',
+                 'the property quantifies over consumes lists spelled in lower case: for a configuration with a mixed-case consumes entry only the '
+                 'correspondence is checked (tag ~mixedcase), the Spec is not judged; the same holds for produces lists (lower case, no empty entry: '
+                 'an empty-string media type would be "chosen" and read as no format)',
+                 'requests are handed to the handlers as *http.Request values (no wire parsing); every lookup yields a fresh MatchedRoute '
+                 '(route.Consumer nil) and no response format is cached in the request context',
+                 "stream H: the API's default producer is lower case and parameter-free and a producer is registered for every declared type "
+                 '(Context.Respond looks producers up by name: C08); the complete handler is not run for an API without default producer'],
+ 'go_entry': 'middleware.Context.BindAndValidate, middleware.Context.BindValidRequest (whole function: gate, response-format check, binder), '
+             'middleware.Serve handler (runtime.HasBody, runtime.ContentType, validateContentType, validation.responseFormat / '
+             'Context.ResponseFormat / NegotiateContentType behind them)',
+ 'model_fn': 'untypedRaw / typedRaw / observe (gateUntyped, gateTyped), hasBody, routeConsumer; typedFull / untypedFull (tRespCheck, uRespCheck, '
+             'tBind, uBind over C07.parseAccept / C07.negotiateContentType), routeProduces',
+ 'partial': [],
+ 'quick_n': 16000,
+ 'rule': 'API configurations (operation consumes lists of 0-3 entries: concrete types, type/*, */*, entries with parameters, odd tokens, a few '
+         'mixed-case ones; API default absent/present; 0-6 RegisterConsumer calls with case variants and duplicates, instrumented consumers) x '
+         'requests (7 methods in either case; Content-Type absent / empty / two lines / valid with case flips, parameters, quoted values, '
+         'surrounding whitespace / literal wildcards / malformed / noise bytes; body signalled by Content-Length, by a stream without length, '
+         'absent, and contradictory combinations). Stream G (half of the cases): Context.BindAndValidate, Context.BindValidRequest (with the binder '
+         'a generated server uses) and the complete middleware.Serve handler on the same request; outputs are the error codes in order, '
+         'route.Consumer, the consumer whose Consume ran, status, whether the operation handler ran, plus runtime.HasBody and mime.ParseMediaType of '
+         'the effective header (and of its own result) as observed. Stream H (the other half; every second H request carries a body of a listed and '
+         'registered type so that the tail is reached): additionally operation produces lists (none / one / several / with parameters / duplicates / '
+         'the API default spelled in the list first or last / a few mixed-case or wildcard entries) x API default producer absent or present '
+         '(route.Produces empty, one, several) x Accept header lines (absent / a declared type / a foreign type / */* / the declared or a foreign '
+         "type/* / q=0 on the declared type alone or beside others / several ranges / several lines, also empty ones / C07's header grammar / noise) "
+         'x binder handed to BindValidRequest (nil / succeeds and decodes / fails with an errors.Error 422 / fails with a plain error); outputs '
+         'additionally route.Produces as found, how often the binder was called and whether the returned error is the very value the binder '
+         'returned. Thorough tier adds the exhaustive product over a 12-entry media-type universe (consumes lists of <= 2 entries x 3 defaults x 3 '
+         'registries x 16 headers x 3 body signals x 2 methods = 68k cases) and, for H, produces lists of <= 2 entries over 4 types x 2 default '
+         'producers x 16 Accept headers x 4 binders x 4 requests (5.6k cases). A case is trivial only when there is neither header nor body signal.',
+ 'search_s': 60,
+ 'thorough_n': 100000,
+ 'thorough_seeds': 2,
+ 'trusted_base': ['reading of the property text into the Lean `Spec` (human step, RtVerif/Model/<id>.lean)',
+                  'correspondence check (differential: Go harness /verif/harness -> protocol lines -> compiled Lean driver rtdriver evaluating Model '
+                  'and Spec); coverage bounded by the generators',
+                  "factgen (go/ast extraction of constants/tables into RtVerif/Gen/Facts.lean) and the driver's line parser",
+                  'mime.ParseMediaType is a parameter of the model (`pmt`); the theorems assume PmtOK (its result parses to itself, is non-empty, '
+                  "holds no ';'), re-checked against the real function on every case (a failure is reported as a correspondence break with tag "
+                  'PMT-HYPOTHESIS-FAILED)',
+                  "the peek into the body stream (bufio) behind runtime.HasBody is the boolean `streamHasData` (C17's subject)",
+                  'net/http Header.Get, go-openapi/errors (codes 400/406/415/500, ServeError serving the first error of a composite), '
+                  "analysis.ConsumesFor / ProducesFor (return the operation's list without duplicates in map order: the observed route.Produces is "
+                  'checked against routeProduces up to that order and then fed to the model), swag.ContainsStringsCI / strings.EqualFold (ASCII '
+                  'folding)',
+                  "the Accept header is parsed and negotiated by C07's model (header.ParseAccept / NegotiateContentType: C07's theorems and "
+                  'correspondence); the C06 theorems quantify over every list of parsed ranges',
+                  'downstream of the gate (parameter binder calling Consume only when HasBody, handler invocation) is modelled by '
+                  '`consumerRan`/`handlerRan` / `Full.decoded` and checked differentially only; for the reflective entry point and the complete '
+                  "handler 'the binder ran' is read off the nil error / the handler call"]}
 
 # properties not claimed (with the reason) and hook commits in /repo (none so far: no hooks needed)
 # built but not yet claimed (with the reason shown in MANIFEST.not_applicable)
